@@ -596,6 +596,11 @@ def bitor(a, b):
             if not (b >> i) & 1:
                 res = res + mk(((a.e / (1 << i)) % 2) * (1 << i))
         return res
+    # disjoint-bits fast path:  (x << k) | y  with 0 <= y < 2**k   is   (x << k) + y
+    for x, y in ((a, b), (b, a)):
+        k = _bits_bound(y, 16)
+        if k is not None and cur().implied(z3.And(_z(x) >= 0, _z(x) % (1 << k) == 0)):
+            return x + y
     return _bitblast(a, b, lambda x, y: z3.Or(x, y))
 
 
